@@ -27,7 +27,7 @@ func c13Check(r *vmc.Result, sc nsFloodScenario) func(nt *nsNet, hist []string) 
 		rep := func() any { s := sc; s.History = hist; return s }
 		for i := 0; i < nt.n; i++ {
 			for _, rt := range nt.routes(i) {
-				if rt.NextHop == (identity.AgentID{}) {
+				if rt.NextHop == (identity.AgentID{}) || rt.NextHop == nt.ids[i] || rt.Origin == nt.ids[i] {
 					continue // local
 				}
 				hops := len(rt.Path)
